@@ -1,4 +1,5 @@
 import ElaVerif.Model.Index
+import ElaVerif.Model.Compact
 /-
   The node as far as C06 / C12 / C14 / C30 look at it (core Lean only): block tree, orphan pool,
   chain selection with reorganisation (blockchain.go: processBlock, maybeAcceptBlock,
@@ -7,7 +8,8 @@ import ElaVerif.Model.Index
   transactions (blockvalidator.go CheckBlockSanity / checkTxsContext, transactionchecker.go), and the
   transaction pool kept in step by the netsync event handler.
 
-  RegNet with PowLimitBits 0x207fffff: every block carries the same work, so "more work" = higher.
+  Work of a block = `CalcWork(header.Bits)` (Model/Compact.lean); on instant-block regnet
+  (PowLimitBits 0x207fffff) the harness does not pass the bits and every block counts 1.
 -/
 namespace ElaVerif.Node
 open ElaVerif.Index
@@ -170,6 +172,21 @@ def NState.find (s : NState) (id : Nat) : Option Block :=
   if s.genesis.id == id then some s.genesis else s.known.find? (·.id == id)
 def NState.inMain (s : NState) (id : Nat) : Bool := s.genesis.id == id || s.active.any (·.1.id == id)
 
+/-- `CalcWork(header.Bits)` -/
+def blockWork (b : Block) : Int := if b.bits = 0 then 1 else ElaVerif.Compact.calcWork b.bits
+
+/-- `BlockNode.WorkSum`: work of the block plus the work sum of its parent (genesis counts 0; fuel =
+    number of known blocks) -/
+def workSum (s : NState) : Nat → Block → Int
+  | 0, _ => 0
+  | fuel + 1, b =>
+    if b.id == s.genesis.id then 0
+    else blockWork b + (match s.find b.prev with
+      | some p => workSum s fuel p
+      | none => 0)
+
+def chainWork (s : NState) (b : Block) : Int := workSum s (s.known.length + 2) b
+
 /-- `State.IsIrreversible` (IrreversibleHeight = 6) -/
 def isIrreversible (s : NState) (cur detach : Nat) : Bool :=
   if cur ≤ s.P.guardFrom then false
@@ -229,7 +246,7 @@ def reorgPlan (s : NState) (b : Block) : Nat × List Block :=
 
 /-- `connectBestChain`, block on a side chain (already recorded in the index) -/
 def sideOrReorg (s : NState) (b : Block) : NState × Outcome :=
-  if b.height ≤ s.tip.height then (cleanPool s, .side)
+  if chainWork s b ≤ chainWork s s.tip then (cleanPool s, .side)
   else if isIrreversible s s.tip.height (reorgPlan s b).1 then (cleanPool s, .side)
   else
     let r := reorganize s (reorgPlan s b).1 (reorgPlan s b).2
